@@ -1,6 +1,8 @@
 package props
 
 import (
+	"crypto/sha256"
+	"encoding/binary"
 	"fmt"
 	"os"
 	"path/filepath"
@@ -73,6 +75,7 @@ type histGen struct {
 	proposals []string
 	newChains int
 	newSvcs   int
+	deployed  []*types.Address // predicted addresses of the deployed ledger_test_gc contracts
 	poorN     int
 	kinds     map[string]int
 	weights   []string
@@ -328,7 +331,29 @@ func (g *histGen) genTx() *txSpec {
 	case "xvm":
 		from := g.actor("from")
 		ws := loadWasm()
-		switch rapid.IntRange(0, 3).Draw(t, "xvm") {
+		switch rapid.IntRange(0, 6).Draw(t, "xvm") {
+		case 4:
+			// deploy the contract with state functions; its address follows from the sender and its ledger nonce
+			if len(ws) > 1 {
+				nonce := w.Nonces.Next(from)
+				s.tx = sim.DeployTx(from, nonce, w.TS+1, ws[1])
+				s.desc = "xvm deploy ledger_test_gc"
+				g.deployed = append(g.deployed, wasmContractAddress(from.Addr, nonce))
+				break
+			}
+			fallthrough
+		case 5, 6:
+			// invoke a deployed contract (possibly deployed earlier in this very block): the block then creates the
+			// contract account and writes storage under it
+			if len(g.deployed) > 0 {
+				to := g.deployed[rapid.IntRange(0, len(g.deployed)-1).Draw(t, "deployed")]
+				k := rapid.SampledFrom([]string{"alice", "bob", ""}).Draw(t, "xk")
+				v := rapid.SampledFrom([]string{"111", "2", ""}).Draw(t, "xv")
+				s.tx = sim.InvokeTx(from, w.Nonces.Next(from), w.TS+1, pb.TransactionData_XVM, to, "state_test_set", pb.Bytes([]byte(k)), pb.Bytes([]byte(v)))
+				s.desc = fmt.Sprintf("xvm state_test_set(%q,%q) on %s", k, v, to.String()[:10])
+				break
+			}
+			fallthrough
 		case 0:
 			if len(ws) > 0 {
 				s.tx = sim.DeployTx(from, w.Nonces.Next(from), w.TS+1, ws[rapid.IntRange(0, len(ws)-1).Draw(t, "wasm")])
@@ -621,4 +646,12 @@ func (g *histGen) genMutated() (pb.Transaction, string) {
 		}
 	}
 	return w.BVM(c.from, c.to, c.method, c.args...), desc + ") by " + short8(c.from)
+}
+
+// wasmContractAddress mirrors pkg/vm/wasm createAddress: sha256(caller || little-endian nonce)[12:].
+func wasmContractAddress(caller *types.Address, nonce uint64) *types.Address {
+	nb := make([]byte, 8)
+	binary.LittleEndian.PutUint64(nb, nonce)
+	h := sha256.Sum256(append(append([]byte(nil), caller.Bytes()...), nb...))
+	return types.NewAddress(h[12:])
 }
